@@ -454,9 +454,29 @@ func c04Run(t *testing.T, c *choice.Stream, r *Result, opt RunOpt, forced *c04Fo
 			default:
 				b, name := drawUnexpected(c, cf)
 				inj = simnet.Step{Label: "unexpected:" + name, Send: b}
+				if sc.kind == "insert" && c.Bool("unexp.dup-header", 1, 3) {
+					// the schema block of an INSERT arrives again (and again): well-formed,
+					// fits the target, and nobody is waiting for it
+					for i := qStart; i < len(script); i++ {
+						if script[i].Label == "data" && len(script[i].Send) > 0 {
+							k := c.Range("unexp.dup-header.n", 1, 3)
+							var rep []byte
+							for j := 0; j < k; j++ {
+								rep = append(rep, script[i].Send...)
+							}
+							inj = simnet.Step{Label: fmt.Sprintf("unexpected:header-x%d", k), Send: rep}
+							p = i + 1
+							break
+						}
+					}
+				}
 			}
 			ns := append([]simnet.Step{}, script[:p]...)
 			ns = append(ns, inj)
+			if strings.HasPrefix(inj.Label, "unexpected:header-x") {
+				// the server then carries on as if nothing had happened
+				ns = append(ns, script[p:]...)
+			}
 			script = ns
 		}
 		// where a server exception ends in the response stream, if there is one:
